@@ -32,7 +32,7 @@ SUFFIX = st.one_of(st.just(''), st.text(max_size=6), st.text(alphabet='aé€\U0
 
 
 @st.composite
-def plans(draw):
+def plans(draw, max_calls=12):
   T = draw(st.sampled_from([20, 50, 100]))
   stack = draw(st.sampled_from(['thrift', 'thriftmux']))
   iface = draw(st.sampled_from(['rich', 'rich', 'hello']))
@@ -51,7 +51,7 @@ def plans(draw):
                'cut': draw(st.sampled_from([1, 4, 10, 18, 30])), 'for_ms': draw(st.sampled_from([5, 15, 25, 45, 60, T + 10, 2 * T]))}
     servers[str(p)] = {'connect': [], 'requests': reqs, 'timeline': tl, 'stall': stall,
                        'chunks': draw(st.one_of(st.none(), st.lists(st.integers(1, 9), min_size=1, max_size=4)))}
-  ncalls = draw(st.integers(2, 12))
+  ncalls = draw(st.integers(2, max_calls))
   methods = ['hi'] if iface == 'hello' else ['echo', 'echo', 'risky', 'put', 'names']
   calls = []
   for i in range(ncalls):
@@ -71,7 +71,7 @@ def plans(draw):
 
 
 def strategy(tier):
-  return plans()
+  return plans(max_calls=12 if tier == 'quick' else 24)
 
 
 def expected_value(port, rec):
